@@ -1,3 +1,3 @@
 From Coq Require Import ExtrOcamlBasic ZArith NArith.
-From CA Require Import Model.Support Model.Lexer Model.Parser Model.Matcher Model.Evaluator Model.Resolver.
-Extraction "../ocaml/gen/resolver_model.ml" support_types parse_defs parse_full assemble.
+From CA Require Import Model.Support Model.Lexer Model.Parser Model.Matcher Model.Evaluator Model.Resolver Spec.Certificate Spec.Denote.
+Extraction "../ocaml/gen/resolver_model.ml" support_types parse_defs parse_full assemble cert_check denote.
